@@ -545,9 +545,17 @@ func randAddrIn(r *rand.Rand, pfx netip.Prefix) netip.Addr {
 // may hold are offered one by one, then every destination that got in is filled to three routes, then the table
 // is cleaned. All always-clauses are checked after every operation.
 func saturationRun(res *core.Result, r *rand.Rand, limit int) {
+	saturationRunBits(res, r, limit, 16)
+	// routing prefixes that do not end on a byte boundary (the real configuration uses /12 continents and /18
+	// countries): destinations spread over the whole prefix, in particular its upper part
+	saturationRunBits(res, r, limit, []int{9, 12, 13, 18, 21}[r.IntN(5)])
+}
+
+func saturationRunBits(res *core.Result, r *rand.Rand, limit int, bits int) {
 	cfg := smallConfig(limit)
-	c := &checker{res: res, tbl: m.NewRoutingTable(cfg), cfg: cfg, desc: fmt.Sprintf("saturation/limit=%d", limit), limit: func(netip.Prefix) int { return limit }}
-	pfx := netip.MustParsePrefix("fd31:7700::/16")
+	cfg.RoutablePrefixes[0].RoutingBits = bits
+	c := &checker{res: res, tbl: m.NewRoutingTable(cfg), cfg: cfg, desc: fmt.Sprintf("saturation/limit=%d/routing-bits=%d", limit, bits), limit: func(netip.Prefix) int { return limit }}
+	pfx, _ := netip.MustParseAddr("fd31:7700::").Prefix(bits)
 	relays := []netip.Addr{netip.MustParseAddr("fd51::1"), netip.MustParseAddr("fd52::2"), netip.MustParseAddr("fd53::3")}
 	n := 2*limit + 4
 	dests := make([]netip.Addr, n)
@@ -565,7 +573,7 @@ func saturationRun(res *core.Result, r *rand.Rand, limit int) {
 	c.apply(op{kind: opClean, name: "clean"}, true)
 	if !c.fail {
 		res.Count("saturation_runs", 1)
-		res.Case(fmt.Sprintf("saturation|%d|%x", limit, r.Uint64()), true)
+		res.Case(fmt.Sprintf("saturation|%d|%d|%x", limit, bits, r.Uint64()), true)
 	}
 }
 
